@@ -51,7 +51,14 @@ func (c scriptCfg) key() string {
 type scriptReplay struct {
 	Cfg   scriptCfg `json:"cfg"`
 	Order []int     `json:"arrival_order"` // actor index per step
+	Probe *probeRec `json:"mismatched_unlock,omitempty"`
 	Trace []string  `json:"trace,omitempty"`
+}
+
+// probeRec: a mismatched unlock issued by an extra goroutine after `AfterStep` requests of the script.
+type probeRec struct {
+	AfterStep int `json:"after_step"`
+	Op        op  `json:"op"`
 }
 
 // mutex under test, uniform interface
@@ -230,18 +237,22 @@ func (m *model) unjustified(a int) (class, what string) {
 var reStr = regexp.MustCompile(`(?s)WriterActive:\s*(\w+).*ReadersActive:\s*(-?\d+).*PendingWriters:\s*(-?\d+)`)
 
 type runner struct {
-	cfg     scriptCfg
-	tg      target
-	m       *model
-	actors  []*gdump.Actor
-	pc      []int
-	order   []int
-	trace   []string
-	useStr  bool // compare String() at quiescent points (plain build, starving target)
-	strOK   int
-	bad     []finding
-	grants  int
-	parkObs int
+	cfg          scriptCfg
+	tg           target
+	m            *model
+	actors       []*gdump.Actor
+	pc           []int
+	order        []int
+	trace        []string
+	useStr       bool // compare String() at quiescent points (plain build, starving target)
+	strOK        int
+	bad          []finding
+	grants       int
+	parkObs      int
+	probe        *probeRec
+	probeOutcome string // "" none | panicked | silent
+	probeParked  bool   // requests were parked when the probe was issued
+	ended        bool   // the run cannot continue (the probe panicked: hive.go leaves the mutex' internal lock held)
 }
 
 type finding struct{ FP, What string }
@@ -395,7 +406,7 @@ func (r *runner) quiesce(what string) {
 
 // finish: a well-formed script must run to completion.
 func (r *runner) finish() {
-	if len(r.bad) > 0 {
+	if len(r.bad) > 0 || r.ended {
 		return
 	}
 	if !r.done() {
@@ -409,16 +420,104 @@ func (r *runner) finish() {
 }
 
 func (r *runner) replay() scriptReplay {
-	return scriptReplay{Cfg: r.cfg, Order: append([]int(nil), r.order...), Trace: r.trace}
+	return scriptReplay{Cfg: r.cfg, Order: append([]int(nil), r.order...), Probe: r.probe, Trace: r.trace}
+}
+
+// ---------------------------------------------------------------- mismatched unlocks from arbitrary reachable states
+
+// probeCandidates lists the unlock calls that are mismatched in the current
+// model state (unlocking something that is not held in that mode).
+func (r *runner) probeCandidates() (out []op) {
+	ents := []int{0}
+	if r.cfg.Target == "dag" {
+		ents = []int{0, 1, 2}
+	}
+	for _, e := range ents {
+		if r.m.mayHoldPartially(e, -1) {
+			continue // a parked multi-entity RLock may hold e: state not exactly known
+		}
+		s := r.m.ent(e)
+		nr := r.m.nReaders(e)
+		pendingOnE := false
+		for _, o := range r.m.parked {
+			for _, x := range o.E {
+				pendingOnE = pendingOnE || x == e
+			}
+		}
+		switch {
+		case s.writer != -1:
+			out = append(out, op{"RU", []int{e}}) // read-unlock while a writer holds
+		case nr > 0:
+			out = append(out, op{"U", []int{e}}) // write-unlock while readers hold
+		case !pendingOnE:
+			out = append(out, op{"RU", []int{e}}, op{"U", []int{e}}) // nothing held at all
+		}
+	}
+	return
+}
+
+var intruder *gdump.Actor
+
+// doProbe issues the mismatched call on an extra goroutine. It must panic or
+// leave the observable state unchanged; the script then continues under the
+// usual safety / wake-up checks (if it panicked the run ends: hive.go panics
+// with the mutex' internal lock held, so nothing can continue on it).
+func (r *runner) doProbe(o op) {
+	if intruder == nil || intruder.Busy() {
+		intruder = gdump.NewActor("intruder")
+	}
+	intruder.TakePanic()
+	r.probe = &probeRec{AfterStep: len(r.order), Op: o}
+	r.probeParked = len(r.m.parked) > 0
+	before := ""
+	if r.useStr {
+		before = r.tg.str()
+	}
+	free := r.cfg.Target == "dag" && r.m.ent(o.E[0]).writer == -1 && r.m.nReaders(o.E[0]) == 0
+	tg := r.tg
+	intruder.Start(func() { tg.do(o) })
+	for k := 0; k < 4 && (r.busy() || intruder.Busy()); k++ {
+		yield()
+	}
+	if r.busy() || intruder.Busy() {
+		waitQuiescent()
+	}
+	what := fmt.Sprintf("mismatched %s by an extra goroutine", o)
+	if p := intruder.TakePanic(); p != "" {
+		r.probeOutcome = "panicked"
+		r.ended = true
+		r.trace = append(r.trace, what+" -> panic: "+p+" (accepted; run ends)")
+		return
+	}
+	if intruder.Busy() {
+		r.viol("notheld/"+o.K+"-blocks", "%s is parked for ever", what)
+		r.ended = true
+		return
+	}
+	r.probeOutcome = "silent"
+	r.trace = append(r.trace, what+" -> returned without panic")
+	if free {
+		r.viol("notheld/dag/"+o.K+"-never-locked/no-panic", "DAGMutex %s of an entity that nobody holds or waits for returns normally", o)
+		return
+	}
+	if r.useStr {
+		if after := r.tg.str(); after != before {
+			r.viol("notheld/"+o.K+"-changed-state", "%s did not panic and changed the state from %s to %s", what, strings.Join(strings.Fields(before), " "), strings.Join(strings.Fields(after), " "))
+			return
+		}
+	}
+	// grants caused by the call are judged by the model (a silently released foreign lock shows up as an unsafe grant)
+	r.quiesce(what)
 }
 
 // ---------------------------------------------------------------- exploration of arrival orders
 
 type exploreStats struct {
-	Leaves, Steps, Grants, ParkObs, StrOK, Nondet int
-	Exhaustive                                    bool
-	Findings                                      []finding
-	Replays                                       []scriptReplay
+	Leaves, Steps, Grants, ParkObs, StrOK, Nondet          int
+	Probes, ProbesPanicked, ProbesSilent, ProbesWithParked int
+	Exhaustive                                             bool
+	Findings                                               []finding
+	Replays                                                []scriptReplay
 }
 
 type frame struct {
@@ -496,11 +595,42 @@ func exploreRandom(cfg scriptCfg, useStr bool, n int, rng *rand.Rand) (st explor
 	return
 }
 
+// exploreProbe executes n seeded random arrival orders, each with one
+// mismatched unlock injected at a seeded quiescent point (states with parked
+// requests preferred).
+func exploreProbe(cfg scriptCfg, useStr bool, n int, rng *rand.Rand) (st exploreStats) {
+	total := totalOps(cfg)
+	for i := 0; i < n; i++ {
+		r := newRunner(cfg, useStr)
+		fireAt := rng.Intn(total) // earliest step at which the probe may fire
+		wantParked := rng.Intn(3) != 0
+		for len(r.bad) == 0 && !r.ended {
+			if r.probe == nil && len(r.order) >= fireAt {
+				if c := r.probeCandidates(); len(c) > 0 && (!wantParked || len(r.m.parked) > 0 || len(r.order) >= total-1) {
+					r.doProbe(c[rng.Intn(len(c))])
+					continue
+				}
+			}
+			opts := r.options()
+			if len(opts) == 0 {
+				break
+			}
+			r.issue(opts[rng.Intn(len(opts))])
+		}
+		r.finish()
+		st.add(r)
+	}
+	return
+}
+
 // runOrder executes one given arrival order (replay).
-func runOrder(cfg scriptCfg, order []int, useStr bool) (st exploreStats) {
+func runOrder(cfg scriptCfg, order []int, useStr bool, probe *probeRec) (st exploreStats) {
 	r := newRunner(cfg, useStr)
+	if probe != nil && probe.AfterStep == 0 {
+		r.doProbe(probe.Op)
+	}
 	for _, a := range order {
-		if len(r.bad) > 0 {
+		if len(r.bad) > 0 || r.ended {
 			break
 		}
 		ok := false
@@ -512,6 +642,9 @@ func runOrder(cfg scriptCfg, order []int, useStr bool) (st exploreStats) {
 			break
 		}
 		r.issue(a)
+		if probe != nil && r.probe == nil && len(r.order) == probe.AfterStep && len(r.bad) == 0 {
+			r.doProbe(probe.Op)
+		}
 	}
 	if len(r.order) == len(order) {
 		r.finish()
@@ -521,6 +654,18 @@ func runOrder(cfg scriptCfg, order []int, useStr bool) (st exploreStats) {
 }
 
 func (st *exploreStats) add(r *runner) {
+	if r.probe != nil {
+		st.Probes++
+		if r.probeParked {
+			st.ProbesWithParked++
+		}
+		switch r.probeOutcome {
+		case "panicked":
+			st.ProbesPanicked++
+		case "silent":
+			st.ProbesSilent++
+		}
+	}
 	st.Leaves++
 	st.Steps += len(r.order)
 	st.Grants += r.grants
@@ -642,6 +787,19 @@ func dagTemplates() [][]op {
 		}
 	}
 	t = append(t, R(0, 1, 2))
+	// repeated ids inside ONE RLock call (all occurrences acquired within the call), released in matching or
+	// permuted order; the holder model counts occurrences
+	ru := func(e ...int) op { return op{"RU", e} }
+	rl := func(e ...int) op { return op{"RL", e} }
+	t = append(t,
+		[]op{rl(0, 0), ru(0, 0)},
+		[]op{rl(1, 1), ru(1, 1)},
+		[]op{rl(0, 0, 1), ru(0, 1, 0)},
+		[]op{rl(0, 1, 1), ru(1, 0, 1)},
+		[]op{rl(1, 1, 2), ru(2, 1, 1)},
+		[]op{rl(0, 0, 0), ru(0, 0, 0)},
+		[]op{rl(0, 0), ru(0), ru(0)}, // released by two separate calls
+	)
 	return t
 }
 
